@@ -24,6 +24,7 @@ func init() {
 		Run: runC27,
 		Controls: []Control{
 			{Name: "lookups-normalise-the-peer-address-the-store-does-not", File: "protocols/bgp/server/bmp_neighbor_manager.go", Old: "func (nm *neighborManager) getNeighbor(vrfID uint64, addr [16]byte) *neighbor {\n\tnm.neighborsMu.Lock()\n\tdefer nm.neighborsMu.Unlock()\n", New: "func canonicalPeerAddr(a [16]byte) [16]byte {\n\tif a[10] == 0xff && a[11] == 0xff {\n\t\ta[10], a[11] = 0, 0\n\t}\n\treturn a\n}\n\nfunc (nm *neighborManager) getNeighbor(vrfID uint64, addr [16]byte) *neighbor {\n\tnm.neighborsMu.Lock()\n\tdefer nm.neighborsMu.Unlock()\n\taddr = canonicalPeerAddr(addr)\n", Expect: "lookup-key-agrees-with-stored-key"},
+			{Name: "tlv-loop-resums-what-it-decoded", File: "protocols/bmp/packet/initiation_message.go", Old: "func decodeInitiationMessage(buf *bytes.Buffer, ch *CommonHeader) (Msg, error) {\n\tim := &InitiationMessage{\n\t\tCommonHeader: ch,\n\t\tTLVs:         make([]*InformationTLV, 0, 2),\n\t}\n\n\tread := uint32(0)\n\ttoRead := ch.MsgLength - CommonHeaderLen\n\n\tfor read < toRead {\n", New: "func c27resum(l []*InformationTLV) (n uint32) {\n\tfor _, t := range l {\n\t\tn += uint32(t.InformationLength) + MinInformationTLVLen\n\t}\n\treturn n\n}\n\nfunc decodeInitiationMessage(buf *bytes.Buffer, ch *CommonHeader) (Msg, error) {\n\tim := &InitiationMessage{\n\t\tCommonHeader: ch,\n\t\tTLVs:         make([]*InformationTLV, 0, 2),\n\t}\n\n\tread := uint32(0)\n\ttoRead := ch.MsgLength - CommonHeaderLen\n\n\tfor c27resum(im.TLVs) < toRead {\n", Expect: "loop-condition-is-constant-time"},
 			{Name: "log-line-grown-by-concatenation", File: "protocols/bgp/server/bmp_router.go", Old: "\t\t\tfmt.Fprintf(logMsg, \" sysDescr.: %s\", string(tlv.Information))\n", New: "\t\t\tr.name += fmt.Sprintf(\" sysDescr.: %s\", string(tlv.Information))\n", Expect: "linear-accumulation"},
 			{Name: "receive-buffer-reserved-from-length-field", File: "protocols/bgp/server/bmp_receiver.go", Old: "\tbuffer.Write(header)\n\t_, err = io.CopyN(buffer, c, int64(l)-bmppkt.MinLen)", New: "\tbuffer.Write(header)\n\tbuffer.Grow(int(l) - bmppkt.MinLen)\n\t_, err = io.CopyN(buffer, c, int64(l)-bmppkt.MinLen)", Expect: "bounded-allocation"},
 			{Name: "sent-open-addpath-for-foreign-family", File: "protocols/bgp/server/bmp_router.go", Old: "\t\t\t\t\tif peerFamily == nil {\n\t\t\t\t\t\tcontinue\n\t\t\t\t\t}\n", New: "", Expect: "family-lookup-result-guarded"},
@@ -50,6 +51,7 @@ func bmpScope(f *core.Fn) bool {
 }
 
 func runC27(c *core.Ctx) {
+	loopConditionIsConstantTime(c, "loop-condition-is-constant-time")
 	lookupKeyAgreesWithStoredKey(c)
 	nilableFamilyGuarded(c, "family-lookup-result-guarded", 1)
 	var roots []*core.Fn
